@@ -12,7 +12,7 @@ use serde_json::{json, Value};
 pub struct P;
 pub static C13: P = P;
 
-pub const VARIANTS: [&str; 9] = [
+pub const VARIANTS: [&str; 12] = [
     "identity",
     "whitespace run -> \\n\\t space",
     "whitespace run -> two spaces",
@@ -22,6 +22,9 @@ pub const VARIANTS: [&str; 9] = [
     "each word wrapped in <span>",
     "newlines and indentation between block tags",
     "whitespace run -> form feed, CR, LF",
+    "newline + tab indentation between block tags",
+    "CR LF, tab, form feed, space between block tags",
+    "a single tab between block tags",
 ];
 /// Rewrites that split a text node into several (relevant for finding KF-C13-1).
 fn splits_text(v: usize) -> bool {
@@ -94,18 +97,27 @@ pub fn ser_v(n: &N, out: &mut String, v: usize, inline_ctx: bool) {
                 return;
             }
             let container_only = ["ul", "ol", "dl"].contains(&tg);
-            if container_only && v == 7 {
-                out.push_str("\n  ");
+            let indent = match v {
+                7 => Some("\n  "),
+                9 => Some("\n\t"),
+                10 => Some("\r\n\t\u{c} "),
+                11 => Some("\t"),
+                _ => None,
+            };
+            if let (true, Some(ind)) = (container_only, indent) {
+                out.push_str(ind);
             }
             for k in kids {
                 ser_v(k, out, v, !blockish);
-                if container_only && v == 7 {
-                    out.push_str("\n  ");
+                if let (true, Some(ind)) = (container_only, indent) {
+                    out.push_str(ind);
                 }
             }
             out.push_str(&format!("</{tag}>"));
-            if v == 7 && !inline_ctx && ["p", "ul", "ol", "blockquote", "h3", "dl", "li", "dt", "dd"].contains(&tg) {
-                out.push('\n');
+            if let Some(ind) = indent {
+                if !inline_ctx && ["p", "ul", "ol", "blockquote", "h3", "dl", "li", "dt", "dd", "div"].contains(&tg) {
+                    out.push_str(if v == 7 { "\n" } else { ind });
+                }
             }
         }
     }
@@ -170,7 +182,7 @@ impl Scope for S {
         let prefixed = max_prefix(&dom::parse(base.as_bytes())) > 0;
         let is_valid = valid(d);
         for v in 1..VARIANTS.len() {
-            if v == 7 && !is_valid {
+            if matches!(v, 7 | 9 | 10 | 11) && !is_valid {
                 continue;
             }
             let rewritten = html_v(d, v);
@@ -186,7 +198,7 @@ impl Scope for S {
     }
     fn info(&self) -> Info {
         Info {
-            rule: "table-free, pre-free grammar documents x 8 source rewrites (whitespace-run substitutions, comments next to whitespace, span wrapping of text nodes and of words, indentation between block tags) x every width x {plain, rich}; each case is a pair of executions; non-trivial = the rewrite changed the bytes and the base rendering has >= 2 lines".into(),
+            rule: "table-free, pre-free grammar documents x 11 source rewrites (whitespace-run substitutions, comments next to whitespace, span wrapping of text nodes and of words, indentation between block tags) x every width x {plain, rich}; each case is a pair of executions; non-trivial = the rewrite changed the bytes and the base rendering has >= 2 lines".into(),
             bounds: json!({"documents": self.docs.len(), "widths": format!("1..={}", self.maxw), "rewrites": VARIANTS[1..].to_vec()}),
             assumptions: vec!["comments are inserted only next to whitespace, as the property states".into()],
         }
